@@ -5,3 +5,4 @@ import OmplModel.Generated.SharedAccess
 #print axioms OmplModel.Generated.SharedAccess.surface_adds_linearizable
 #print axioms OmplModel.Generated.SharedAccess.surface_add_clear_linearizable
 #print axioms OmplModel.Generated.SharedAccess.surface_seeds_distinct
+#print axioms OmplModel.Generated.SharedAccess.planner_fields_guarded
